@@ -57,7 +57,7 @@ CONSTANTS MaxSize = {maxsize} RichM = {richm} ShardM = {shardm} NShardsM = {nsha
           KwargCheck = "{kwarg_check}" Families = {{{families}}}
 INVARIANT {invs}
 """
-FAMILIES_N2 = ("basic", "storage_dict", "post_map", "post_call", "call_kw", "illformed_call")   # everything
+FAMILIES_N2 = ("basic", "storage_dict", "post_map", "post_call", "call_kw", "illformed_call", "illformed_run_func")   # everything
 FAMILIES_N3 = ("post_call", "illformed_call")    # three functions: the faults met through the call side, every output
 TRACE_CONSTANTS = ('MaxSize = 1 RichM = FALSE ShardM = 1 NShardsM = 1 N = 2 RichP = FALSE ShardP = 1 NShardsP = 1 '
                    'StorageCheck = "early" KwargCheck = "early" Families = {}')   # empty universes; the REQUIRED positions of the checks
@@ -304,7 +304,8 @@ def ordering_counterexamples(ctx: Ctx, shard: tuple[int, int, int, int]) -> None
 
     def one(k: int):
         name, inv, kw, constraint = runs[k]
-        return run_tlc("MC_Validity", mcfg(*shard, invs=inv, **kw) + f"CONSTRAINT {constraint}\n",
+        fam = ("call_kw",) if constraint == "CallMutantsOnly" else ("basic", "storage_dict")   # the families the constraint keeps
+        return run_tlc("MC_Validity", mcfg(*shard, 2, fam, invs=inv, **kw) + f"CONSTRAINT {constraint}\n",
                        ctx.workdir(f"order_{name}_{inv}"), workers=1, timeout=1800)
     found: dict[str, dict] = {}
     with ThreadPoolExecutor(max_workers=5) as ex:
@@ -365,7 +366,8 @@ STRIP = ("obs", "op", "label", "kinds", "how")
 
 def validate(ctx: Ctx, traces: list[dict], name: str) -> dict[int, int]:
     rej = validate_traces(ctx, "MC_Validity", traces, name, invariants=["InvRejectIsPure", "InvNoCodeBeforeAccept"],
-                          strip=STRIP, constants=TRACE_CONSTANTS, chunk=max(100, len(traces) // 4 + 1))
+                          strip=STRIP, constants=TRACE_CONSTANTS,
+                          chunk=-(-len(traces) // max(1, min(4, round(len(traces) / 100)))))   # <= 4 chunks of about 100
     if rej:
         verdicts = spec_verdicts(ctx, [traces[i] for i in sorted(rej)], name)
         for k, i in enumerate(sorted(rej)):
@@ -458,6 +460,14 @@ def fixed_jobs() -> list[dict]:
     add("tests/test_pipeline.py:581 missing value for an argument", two, [["a", _atom("1")]], entry="call", out="d")
     add("tests/test_pipeline.py:424 call with exactly the needed keywords (accepted)", two, [["a", _atom("1")], ["b", _atom("2")]],
         entry="call", out="d")
+    # the repository has no test with a cyclic pipeline: a cycle v <-> w below / beside a function that is not part of it
+    below = [_f("p", ["x"], ["u"]), _f("q", ["u", "w"], ["v"]), _f("r", ["v"], ["w"])]
+    beside = [_f("p", ["x"], ["u"]), _f("q", ["y", "w"], ["v"]), _f("r", ["v"], ["w"])]
+    add("cycle v<->w downstream of u: pipeline('u', x=...)", below, [["x", _atom("1")]], entry="call", out="u")
+    add("cycle v<->w downstream of u: pipeline.func('v') (u is evaluated before the cycle is entered)", below,
+        [["x", _atom("1")]], entry="func", out="v")
+    add("cycle v<->w beside u: pipeline.run('u', kwargs=...)", beside, [["x", _atom("1")]], entry="run", out="u")
+    add("cycle v<->w downstream of u: map", below, [["x", _atom("1")]])
     add("tests/map/test_map.py:1576-style storage dictionary with an unknown name after the default",
         [_f("f", ["x"], ["y"], "x[i] -> y[i]"), _f("g", ["y"], ["z"])], [["x", _arr("x", 2)]],
         C(sdict=[{"key": [], "name": "file_array"}, {"key": ["y"], "name": "bogus"}], cleanup=False),
@@ -501,8 +511,13 @@ def mutate_random(rng: random.Random, tdesc: dict, inputs: list) -> tuple[str, d
     outs = [o for f in fs for o in f["outputs"]]
     op = rng.choice(["dropped_input", "added_input", "unknown_storage", "executor_without_parallel", "resized_axis",
                      "changed_rank", "rename_collision", "added_edge", "axis_names", "mapspec_signature", "none",
-                     "unknown_storage_in_dict", "call_dropped_kw", "call_added_kw"])
+                     "unknown_storage_in_dict", "call_dropped_kw", "call_added_kw", "rename_collision_call", "added_edge_call"])
     cfg: dict = {}
+    via_call = op.endswith("_call") and not op.startswith("call_")   # a construction fault, then a call of any output
+    if via_call:
+        if any(f["has_ms"] for f in fs):
+            return None
+        op = op[:-len("_call")]
     if op in ("call_dropped_kw", "call_added_kw"):
         if any(f["has_ms"] for f in fs):
             return None
@@ -565,6 +580,10 @@ def mutate_random(rng: random.Random, tdesc: dict, inputs: list) -> tuple[str, d
         rng.choice(ms)["ms"]["ins"][0]["name"] = "nope"
     elif op != "none":
         return None
+    if via_call:
+        out = rng.choice(sorted({o for f in fs for o in f["outputs"]}))
+        kw = [[r, _atom("k_" + r)] for r in _read_roots(d, out)]
+        return op + "_call", d, kw, {"entry": rng.choice(["call", "run", "func"]), "out": out, "folder": False, "cleanup": True}
     return op, d, inp, cfg
 
 
@@ -594,6 +613,25 @@ def random_jobs(rng: random.Random, count: int) -> list[dict]:
     return jobs
 
 
+class _Deferred:
+    """Stand-in for the Ctx in a side thread: TLC results are kept and registered by flush() in the main thread."""
+
+    def __init__(self, ctx: Ctx) -> None:
+        self.ctx, self.extra, self.runs = ctx, {}, []
+
+    def workdir(self, name: str) -> Path:
+        return self.ctx.workdir(name)
+
+    def add_tlc(self, r, what: str = ""):
+        self.runs.append((r, what))
+        return r
+
+    def flush(self) -> None:
+        for r, what in self.runs:
+            self.ctx.add_tlc(r, what)
+        self.ctx.extra.update(self.extra)
+
+
 # ---- the check ------------------------------------------------------------------------------------------------------
 def run(ctx: Ctx) -> None:
     import time
@@ -613,8 +651,11 @@ def run(ctx: Ctx) -> None:
                 "added input, resized axis, changed rank, axis names in one consumer, MapSpec vs signature, unknown storage, "
                 "executor without parallel, unknown name in a storage dictionary at every position; after construction: "
                 "update_renames of an output onto another output / an own parameter, of a parameter onto an own output / into "
-                "a cycle, update_defaults against another function's default) x cleanup in {True, False}, entry map or call; "
-                "on the call side a dropped or an added keyword; mutants that stay valid are counted and discarded; "
+                "a cycle, update_defaults against another function's default) x cleanup in {True, False}, entry map or call "
+                "of every output; on the call side a dropped or an added keyword; a MapSpec-free base (C02 with two and with "
+                "three functions) with a rename collision / added edge / changed default asked for EVERY output through "
+                "pipeline(out, **kw), run and func with the keywords the needed functions read; mutants that stay valid are "
+                "counted and discarded; "
                 "plus the repository's pytest.raises examples and seeded random larger mutants judged by TLC; non-trivial = "
                 "the specification calls the request invalid")
     ctx.assumptions = ["TLC and the JSON/term encoding are trusted", "the run folder is compared by content (sha1 per file), "
@@ -623,12 +664,21 @@ def run(ctx: Ctx) -> None:
                        "the exception class is not compared (the property only says 'raises')"]
     s = ctx.seed
     if quick:
-        # two TLC processes: one C01 shard, one C02 shard (Shard = NShards switches the other universe off)
-        shards = [(s % 48, 48, 16, 16), (48, 48, s % 16, 16)]
+        # three TLC processes: one C01 shard, one C02 shard with two functions (every family), one C02 shard with three
+        # functions (the call-side families; Shard = NShards switches the other universe off)
+        shards = [(s % 48, 48, 16, 16), (48, 48, s % 16, 16), (48, 48, (7 * s) % 256, 256, 3, FAMILIES_N3)]
     else:
-        shards = [((s + 5 * k) % 16, 16, 4, 4) for k in range(2)] + [(16, 16, k, 4) for k in range(4)]   # two C01 shards; all of C02's N=2
-    cases, stayed = export_mutants(ctx, shards, workers=2)
-    ordering_counterexamples(ctx, (s % 48, 48, s % 16, 16))
+        shards = ([((s + 5 * k) % 16, 16, 4, 4) for k in range(2)] + [(16, 16, k, 4) for k in range(4)]   # two C01 shards; all of C02's N=2
+                  + [(16, 16, (s + 11 * k) % 64, 64, 3, FAMILIES_N3) for k in range(2)])                   # two shards of C02's N=3
+    # the export and the implementation-shaped orderings are independent TLC runs: side by side (their results are
+    # registered afterwards, in a fixed order)
+    late = _Deferred(ctx)
+    with ThreadPoolExecutor(max_workers=2) as tp:
+        fut_export = tp.submit(export_mutants, ctx, shards, 2)
+        fut_order = tp.submit(ordering_counterexamples, late, (s % 48, 48, s % 16, 16))
+        cases, stayed = fut_export.result()
+        fut_order.result()
+    late.flush()
     ctx.exhaustive = False
     ctx.extra["universe"] = f"shards (ShardM, NShardsM, ShardP, NShardsP) = {shards}"
     ctx.extra["mutants_stayed_valid_discarded"] = stayed
@@ -671,7 +721,7 @@ def run(ctx: Ctx) -> None:
 
     # fixed examples and random larger mutants: TLC decides
     fixed = run_traced_jobs(fixed_jobs())
-    rnd = run_traced_jobs(random_jobs(rng, 150 if quick else 4000))
+    rnd = run_traced_jobs(random_jobs(rng, 180 if quick else 4500))
     for t in fixed + rnd:
         ctx.case({"req": [t["desc"], t["inputs"], t["cfg"]]}, nontrivial=t["obs"]["outcome"] == "rejected")
     ctx.extra["fixed_examples"] = [{"label": t["label"], "outcome": t["obs"]["outcome"], "cls": t["obs"]["cls"]} for t in fixed]
